@@ -406,7 +406,7 @@ class Natives(object):
         for fname, fv in chosen.fields(c).items():
             st.heap[a][fname] = fv
         if chosen.status != 'verified':
-            ex.assumed_log.append('%s [%s]' % (qi, chosen.status))
+            ex.assumed_log.append('%s {%s} [%s]' % (qi, chosen.name, chosen.status))
         return obj
 
     def inline_call(self, ex, st, q, args, kwargs, e):
